@@ -3,6 +3,7 @@ package main
 import (
 	"fmt"
 	"go/token"
+	"sort"
 	"strings"
 
 	"golang.org/x/tools/go/ssa"
@@ -135,57 +136,126 @@ func c05ObjectRestExclusion(p *Prog) *RuleResult {
 // __superGet(Class.prototype, this, 'x'), …call(this, …). The `this` it writes is synthesised — it
 // does not come from the source — so the two pieces of bookkeeping that visiting a real `this`
 // performs have to be done by the helper itself, and the four helper functions have to agree:
-//   (a) inside a lowered static field initialiser `this` must be replaced by the class reference
-//       (fnOnlyDataVisit.shouldReplaceThisWithInnerClassNameRef), otherwise the emitted `this` is
-//       the `this` of the surrounding code, not the class;
-//   (b) the enclosing function must be told that it uses `this` (fnOnlyDataVisit.hasThisUsage),
-//       otherwise a lowered async arrow forwards `null` as its receiver (__async(null, …)) and the
-//       synthesised `this` inside the generated generator is null.
+//
+//	(a) inside a lowered static field initialiser `this` must be replaced by the class reference
+//	    (fnOnlyDataVisit.shouldReplaceThisWithInnerClassNameRef), otherwise the emitted `this` is
+//	    the `this` of the surrounding code, not the class;
+//	(b) the enclosing function must be told that it uses `this` (fnOnlyDataVisit.hasThisUsage),
+//	    otherwise a lowered async arrow forwards `null` as its receiver (__async(null, …)) and the
+//	    synthesised `this` inside the generated generator is null.
+//
 // Rule (sibling agreement): every function of js_parser whose name mentions "SuperProperty" and that
-// builds an expression from js_ast.EThisShared reads flag (a) and sets flag (b).
+// builds an expression from js_ast.EThisShared — itself or through a small helper it calls (static
+// callees in the package that load EThisShared, two levels) — reads flag (a) and sets flag (b),
+// there or in that helper. The two obligations are keyed by what is lowered, not by the name of the
+// function that does it, so moving the code into a helper does not change the verdict.
 func c05SynthesisedThis(p *Prog) *RuleResult {
 	r := NewRule("C05/R3 synthesised-this", "every helper that lowers a super property access and writes a synthesised `this` replaces it by the class reference inside lowered static field initialisers and marks the enclosing function as using `this`")
-	n := 0
-	for _, fn := range p.ModuleFuncs() {
-		if pkgPathOf(fn) != modPath+"/internal/js_parser" || fn.Parent() != nil || !strings.Contains(fn.Name(), "SuperProperty") {
-			continue
+	type facts struct {
+		usesThis, readsReplace, setsUsage bool
+		pos                               token.Pos
+	}
+	direct := map[*ssa.Function]*facts{}
+	factsOf := func(fn *ssa.Function) *facts {
+		if f, ok := direct[fn]; ok {
+			return f
 		}
-		usesThis, readsReplace, setsUsage := false, false, false
-		var pos token.Pos
+		f := &facts{}
+		direct[fn] = f
 		eachInstr(fn, func(b *ssa.BasicBlock, in ssa.Instruction) {
 			switch x := in.(type) {
 			case *ssa.UnOp:
 				if g, ok := x.X.(*ssa.Global); ok && g.Name() == "EThisShared" {
-					usesThis = true
-					pos = x.Pos()
+					f.usesThis = true
+					f.pos = x.Pos()
 				}
 				if _, name, ok := loadedField(x); ok && name == "shouldReplaceThisWithInnerClassNameRef" {
-					readsReplace = true
+					f.readsReplace = true
 				}
 			case *ssa.Store:
 				if fa, ok := x.Addr.(*ssa.FieldAddr); ok && fieldAddrName(fa) == "hasThisUsage" && isConstBool(x.Val, true) {
-					setsUsage = true
+					f.setsUsage = true
 				}
 			}
 		})
-		if !usesThis {
+		return f
+	}
+	var closure func(fn *ssa.Function, depth int, seen map[*ssa.Function]bool) facts
+	closure = func(fn *ssa.Function, depth int, seen map[*ssa.Function]bool) facts {
+		out := *factsOf(fn)
+		if depth >= 2 {
+			return out
+		}
+		seen[fn] = true
+		eachInstr(fn, func(b *ssa.BasicBlock, in ssa.Instruction) {
+			c, ok := in.(ssa.CallInstruction)
+			if !ok {
+				return
+			}
+			callee := c.Common().StaticCallee()
+			if callee == nil || seen[callee] || callee.Blocks == nil || pkgPathOf(callee) != modPath+"/internal/js_parser" {
+				return
+			}
+			if strings.HasPrefix(callee.Name(), "visit") || strings.HasPrefix(callee.Name(), "parse") || strings.HasPrefix(callee.Name(), "lower") || strings.HasPrefix(callee.Name(), "maybeLower") || strings.HasPrefix(callee.Name(), "call") {
+				return // general passes and the sibling lowering helpers are judged on their own
+			}
+			sub := closure(callee, depth+1, seen)
+			if !sub.usesThis {
+				return // only helpers that make the `this` expression belong to the lowering step
+			}
+			out.usesThis = true
+			if out.pos == token.NoPos {
+				out.pos = c.Pos()
+			}
+			out.readsReplace = out.readsReplace || sub.readsReplace
+			out.setsUsage = out.setsUsage || sub.setsUsage
+		})
+		return out
+	}
+	n := 0
+	var noReplace, noUsage []string
+	var posReplace, posUsage token.Pos
+	for _, fn := range p.ModuleFuncs() {
+		if pkgPathOf(fn) != modPath+"/internal/js_parser" || fn.Parent() != nil || !strings.Contains(fn.Name(), "SuperProperty") {
+			continue
+		}
+		f := closure(fn, 0, map[*ssa.Function]bool{})
+		if !f.usesThis {
 			continue
 		}
 		n++
-		name := FuncName(fn)
 		r.Instances++
-		if readsReplace {
-			r.OK(name+" static-field receiver", true, "consults shouldReplaceThisWithInnerClassNameRef")
-		} else {
-			r.Fail(name+" static-field receiver", p.Pos(pos), "this helper writes a synthesised `this` without consulting shouldReplaceThisWithInnerClassNameRef (its siblings do): in a lowered static field initialiser `static x = super.m()` becomes __superGet(C, C, 'm').call(this) with the `this` of the surrounding module/function instead of the class")
+		if !f.readsReplace {
+			noReplace = append(noReplace, FuncName(fn))
+			if posReplace == token.NoPos {
+				posReplace = f.pos
+			}
 		}
-		r.Instances++
-		if setsUsage {
-			r.OK(name+" this-usage", true, "sets hasThisUsage")
-		} else {
-			r.Fail(name+" this-usage", p.Pos(pos), "this helper writes a synthesised `this` into the enclosing function without setting hasThisUsage: a lowered async arrow then forwards null as its receiver (`async () => super.foo()` becomes __async(null, null, function*(){ __superGet(C.prototype, this, 'foo').call(this) }) and `this` is null at run time)")
+		if !f.setsUsage {
+			noUsage = append(noUsage, FuncName(fn))
+			if posUsage == token.NoPos {
+				posUsage = f.pos
+			}
 		}
 	}
-	r.Anchor("super-lowering helpers that synthesise `this`", n >= 3)
+	if !r.Anchor("super-lowering helpers that synthesise `this`", n >= 3) {
+		return r
+	}
+	sort.Strings(noReplace)
+	sort.Strings(noUsage)
+	if len(noReplace) == 0 {
+		r.OK("lowered super property access: static-field receiver", true, fmt.Sprintf("all %d helpers consult shouldReplaceThisWithInnerClassNameRef", n))
+	} else {
+		r.Fail(fmt.Sprintf("lowered super property access: static-field receiver (%d helper)", len(noReplace)), p.Pos(posReplace), "writes a synthesised `this` without consulting shouldReplaceThisWithInnerClassNameRef (the sibling helpers do): in a lowered static field initialiser `static x = super.m()` becomes __superGet(C, C, 'm').call(this) with the `this` of the surrounding module/function instead of the class — in "+strings.Join(noReplace, ", "))
+	}
+	if len(noUsage) == 0 {
+		r.OK("lowered super property access: this-usage", true, fmt.Sprintf("all %d helpers set hasThisUsage", n))
+	} else {
+		usageKey := fmt.Sprintf("lowered super property access: this-usage (%d of %d helpers)", len(noUsage), n)
+		if len(noUsage) == n {
+			usageKey = "lowered super property access: this-usage (none of the helpers)"
+		}
+		r.Fail(usageKey, p.Pos(posUsage), "writes a synthesised `this` into the enclosing function without setting hasThisUsage: a lowered async arrow then forwards null as its receiver (`async () => super.foo()` becomes __async(null, null, function*(){ __superGet(C.prototype, this, 'foo').call(this) }) and `this` is null at run time) — in "+strings.Join(noUsage, ", "))
+	}
 	return r
 }
